@@ -263,6 +263,36 @@ func genC03Shapes(w *caseWriter, st *pkgStats) int {
 	return n
 }
 
+// C02: a relation rpm cannot express (an operator that is none of < <= = >= >) in each of the six lists, with the build
+// host configured and left to the machine: the package either fails to build or states every relation
+func genC02Shapes(w *caseWriter, st *pkgStats) int {
+	n := 0
+	lists := []func(c *nfpm.Config) *[]string{
+		func(c *nfpm.Config) *[]string { return &c.Provides }, func(c *nfpm.Config) *[]string { return &c.Depends },
+		func(c *nfpm.Config) *[]string { return &c.Recommends }, func(c *nfpm.Config) *[]string { return &c.Replaces },
+		func(c *nfpm.Config) *[]string { return &c.Suggests }, func(c *nfpm.Config) *[]string { return &c.Conflicts },
+	}
+	for li, get := range lists {
+		for bi, bad := range []string{"libbad => 1.0", "libbad == 1.0", "libbad <> 2", "libbad =< 3"} {
+			for _, host := range []string{"", "builder.example.org"} {
+				c := baseConfig("badrel")
+				c.RPM.BuildHost = host
+				c.Depends, c.Provides, c.Conflicts = []string{"bash", "libc6 >= 2.17"}, []string{"virtual-thing = 1.0"}, []string{"oldthing < 2"}
+				c.Recommends, c.Suggests, c.Replaces = []string{"nice-to-have"}, []string{"maybe"}, []string{"oldname"}
+				l := get(&c)
+				*l = append([]string{"good-before >= 1"}, append([]string{bad}, *l...)...)
+				c.Contents = files.Contents{{Source: "src/f1", Destination: "/usr/bin/badrel"}}
+				n++
+				if (li+bi)%2 == 1 && host != "" {
+					continue // half of the combinations with a configured host are enough
+				}
+				runPkgCase(w, fmt.Sprintf("h-rpm-relation-operator-%d-%d-%d", li, bi, n), pkgDesc{YAML: marshalConfig(&c), Formats: []string{"rpm", "deb"}}, st, nil)
+			}
+		}
+	}
+	return n
+}
+
 // C04: names at the edges: first components that start with a dot next to their undotted siblings, names
 // that sort before ".PKGINFO", scripts and other control members whose size is a multiple of 512
 func genC04Shapes(w *caseWriter, st *pkgStats) int {
